@@ -1189,6 +1189,9 @@ func c05WrappedTrie(c C) {
 		if f.Pkg == nil || ir.RelPkg(f.Pkg.Pkg) != "state" || strings.HasSuffix(p.Pos(f.Pos()), "_test.go") {
 			continue
 		}
+		if ir.IsTransparentHelper(f) {
+			continue // counted with its owner (ir.Calls looks through it)
+		}
 		if len(ir.Calls(f, "heap.Push"))+len(ir.Calls(f, "heap.Pop")) > 0 {
 			pushers = append(pushers, ir.FuncName(f))
 		}
